@@ -45,6 +45,7 @@ ScenH == {S \in SUBSET (1 .. 12) : /\ Cardinality(S) \in {3, 4}
                                    /\ Cardinality(S \cap (1 .. 6)) >= 2
                                    /\ Cardinality(S \cap (7 .. 12)) >= 1}
 ScenHSmall == {{1, 2, 7}, {1, 3, 6, 9}, {2, 5, 8, 11}}
+ScenHSmall2 == {{1, 2, 7}, {1, 3, 6, 9}}
 ScenAbstract == {{1, 2}, {1, 2, 3}, {1, 2, 3, 4}}       \* layout generation: only ranks matter
 
 APats == {Lit("x"), Lit("y"), Lit("xy"), Lit("zz"), Alt(<<"x", "y">>), Alt(<<"y", "xy">>),
